@@ -1,4 +1,5 @@
 import PyxModel.Load
+import PyxModel.LoadApi
 
 /-
   C18 — one loader builds independent metamodels: a model that makes SHARING explicit.
@@ -143,6 +144,8 @@ inductive Mut where
   | defineUnique (kind name : String) (attrs : List String)
   /-- `metamodel.new(kind)` (default values) -/
   | new (kind : String)
+  /-- `metamodel.new(kind, *args)`: positional arguments, referential ones trigger the batch relate -/
+  | newArgs (kind : String) (args : List Val)
   /-- `xtuml.delete(inst)` -/
   | delete (kind : String) (id : Nat)
   /-- `setattr(inst, attr, value)` on a non-referential attribute -/
@@ -183,6 +186,7 @@ def Mut.name : Mut → String
   | .deleteAttr .. => "delete_attribute"
   | .defineUnique .. => "define_unique_identifier"
   | .new .. => "new"
+  | .newArgs .. => "new"
   | .delete .. => "delete"
   | .setAttr .. => "setattr"
   | .relate .. => "relate"
@@ -196,6 +200,7 @@ def Mut.writes : Mut → List Field
   | .deleteAttr .. => [.clsAttributes]
   | .defineUnique .. => [.clsIndices]
   | .new .. => [.instances, .idGenerator, .linkItems]
+  | .newArgs .. => [.instances, .idGenerator, .linkItems]
   | .delete .. => [.linkItems, .instances]
   | .setAttr .. => [.instances]
   | .relate .. => [.linkItems]
@@ -208,6 +213,8 @@ def Sharing.sharedFields (sh : Sharing) : List Field :=
 
 inductive Res where
   | ok | deleteError | relateError | unrelateError | unknownClass | metaError
+  | unknownLink      -- UnknownLinkException out of the batch relate
+  | unmodelled       -- an identifying attribute that is itself referential would be read through a link
   deriving DecidableEq, Repr
 
 def modifyCls (cs : List HCls) (kind : String) (f : HCls → HCls) : List HCls :=
@@ -265,6 +272,62 @@ def updateAt {α : Type} : List α → Nat → (α → α) → List α
   | x :: xs, 0, f => f x :: xs
   | x :: xs, n + 1, f => x :: updateAt xs n f
 
+/-! #### `new` with arguments: the batch relate on creation indices (as `Pyx.Load.apiNew`, PyxModel/LoadApi.lean) -/
+
+def rowsOfH (cs : List HCls) (kind : String) : List (Nat × Row) :=
+  match findHCls cs kind with
+  | some c => c.rows
+  | none => []
+
+/-- `to_metaclass.query(kwargs)`: creation indices of the stored rows whose values equal the wanted ones -/
+def queryRowsH (rows : List (Nat × Row)) (kwargs : List (String × Val)) : List Nat :=
+  rows.filterMap (fun p => if kwargs.all (fun kv => p.2.get kv.1 == kv.2) then some p.1 else none)
+
+/-- `relate(from_instance, to_instance, rel_id, phrase)` with `_find_link` as the code has it -/
+def relateH (o : HMeta) (k1 : String) (i1 : Nat) (k2 : String) (i2 : Nat) (rel phrase : String) : HMeta × Res :=
+  match findLink (o.assocs.map (·.stmt)) k1 k2 rel phrase with
+  | none => (o, .unknownLink)
+  | some (n, swapped) =>
+    match o.assocs[n]? with
+    | none => (o, .unknownLink)
+    | some a =>
+      let r := if swapped then relateAt a.stmt a.links i2 i1 else relateAt a.stmt a.links i1 i2
+      ({ o with assocs := Pyx.Heap.updateAt o.assocs n (fun x => { x with links := r.1 }) },
+       if r.2 then .ok else .relateError)
+
+def relateHitsH (okind kind : String) (i : Nat) (rel phrase : String) : List Nat → HMeta → HMeta × Res
+  | [], o => (o, .ok)
+  | j :: js, o =>
+    match relateH o okind j kind i rel phrase with
+    | (o', .ok) => relateHitsH okind kind i rel phrase js o'
+    | r => r
+
+def relateLinkH (refs : List (String × Val)) (km : List (String × String)) (okind kind : String) (i : Nat)
+    (rel phrase : String) (o : HMeta) : HMeta × Res :=
+  if !(km.all (fun p => (refs.map (·.1)).contains p.2)) then (o, .ok)
+  else if km.any (fun p => isNull ((refs.lookup p.2).getD .none)) then (o, .ok)
+  else if km.isEmpty then (o, .ok)
+  else if km.any (fun p => (referential (o.assocs.map (·.stmt)) okind).contains p.1) then (o, .unmodelled)
+  else
+    relateHitsH okind kind i rel phrase
+      (queryRowsH (rowsOfH o.classes okind) (km.map (fun p => (p.1, (refs.lookup p.2).getD .none)))) o
+
+def relateLinksH (refs : List (String × Val)) (kind : String) (i : Nat) :
+    List (List (String × String) × String × String × String) → HMeta → HMeta × Res
+  | [], o => (o, .ok)
+  | (km, okind, rel, phrase) :: rest, o =>
+    match relateLinkH refs km okind kind i rel phrase o with
+    | (o', .ok) => relateLinksH refs kind i rest o'
+    | r => r
+
+/-- the two loops of `new` over `zip(attributes, args)`: non-referential values are stored, referential ones
+    collected in a dict -/
+def splitArgs (refNames : List String) : List ((String × Ty) × Val) → Row → List (String × Val) → Row × List (String × Val)
+  | [], row, refs => (row, refs)
+  | ((n, _), v) :: rest, row, refs =>
+    if refNames.contains n then splitArgs refNames rest row (dictSet refs n v)
+    else splitArgs refNames rest (dictSet row n v) refs
+
 def Mut.isAttrEdit : Mut → Bool
   | .appendAttr .. => true
   | .insertAttr .. => true
@@ -295,6 +358,19 @@ def applyOwn (attrsOf : Ref (List (String × Ty)) → List (String × Ty)) (o : 
       ({ o with
           classes := modifyCls o.classes kind (fun c => { c with rows := c.rows ++ [(c.created, r.1)], created := c.created + 1 }),
           idNext := r.2 }, .ok)
+  | .newArgs kind args =>
+    match findHCls o.classes kind with
+    | none => (o, .unknownClass)
+    | some c =>
+      let all := o.assocs.map (·.stmt)
+      let refNames := referential all kind
+      let d := defaultRow refNames (attrsOf c.attrs) o.idNext
+      let sp := splitArgs refNames ((attrsOf c.attrs).zip args) d.1 []
+      let o1 : HMeta := { o with
+        classes := modifyCls o.classes kind (fun c => { c with rows := c.rows ++ [(c.created, sp.1)], created := c.created + 1 }),
+        idNext := d.2 }
+      if sp.2.isEmpty then (o1, .ok)
+      else relateLinksH sp.2 kind c.created (linksOfKind all kind) o1
   | .delete kind id =>
     match findHCls o.classes kind with
     | none => (o, .unknownClass)
@@ -368,6 +444,64 @@ def step (sh : Sharing) (w : World) : Op → World
     | _ => w
 
 def run (sh : Sharing) (ops : List Op) : World := ops.foldl (step sh) World.init
+
+/-! ### clone: `m_k.clone(instance of m_j)` reads the instance, then is `new` with the values read -/
+
+def rowOfId (rows : List (Nat × Row)) (id : Nat) : Row :=
+  match rows.find? (fun p => p.1 = id) with
+  | some p => p.2
+  | none => []
+
+/-- `getattr(instance, x)` for a referential attribute: the chain of properties installed by
+    `Association.formalize`, the association formalised last first (list in REVERSE definition order) -/
+def readRefH (o : HMeta) (kind : String) (id : Nat) (x : String) : List HAssoc → Option Val
+  | [] => some .none
+  | a :: earlier =>
+    match (if a.stmt.srcKind = kind then (a.stmt.srcKeys.zip a.stmt.tgtKeys).lookup x else none) with
+    | none => readRefH o kind id x earlier
+    | some tkey =>
+      match (a.links.tgt id).head? with
+      | none => readRefH o kind id x earlier
+      | some j =>
+        if (referential (o.assocs.map (·.stmt)) a.stmt.tgtKind).contains tkey then none     -- chained key: not modelled
+        else some ((rowOfId (rowsOfH o.classes a.stmt.tgtKind) j).get tkey)
+
+/-- `[getattr(instance, name) for name, _ in get_metaclass(instance).attributes]` -/
+def readAllH (stmts : List Stmt) (o : HMeta) (c : HCls) (id : Nat) : Option (List Val) :=
+  let refNames := referential (o.assocs.map (·.stmt)) c.kind
+  (getAttrs stmts c.attrs).mapM (fun p =>
+    if refNames.contains p.1 then readRefH o c.kind id p.1 o.assocs.reverse
+    else some ((rowOfId c.rows id).get p.1))
+
+/-- histories that also clone instances of one built metamodel into another (or the same) -/
+inductive OpC where
+  | op (o : Op)
+  /-- `metas[k].clone(instance (kind, id) of metas[j])` -/
+  | cloneInto (k j : Nat) (kind : String) (id : Nat)
+
+/-- a clone is `new` on the target with the values read from the source instance at that moment; reading writes
+    nothing.  (`Op.input []` = nothing happens: no such source, or a chained key that the model does not read.) -/
+def resolveOp (w : World) : OpC → Op
+  | .op o => o
+  | .cloneInto k j kind id =>
+    match w.metas[j]? with
+    | some (some src) =>
+      match findHCls src.classes kind with
+      | some c =>
+        match readAllH w.stmts src c id with
+        | some args => .mutate k (.newArgs kind args)
+        | none => .input []
+      | none => .input []
+    | _ => .input []
+
+def stepC (sh : Sharing) (w : World) (oc : OpC) : World := step sh w (resolveOp w oc)
+
+def runC (sh : Sharing) (ops : List OpC) : World := ops.foldl (stepC sh) World.init
+
+/-- the same history with every clone replaced by the `new` it amounts to -/
+def resolveAll (sh : Sharing) : World → List OpC → List Op
+  | _, [] => []
+  | w, oc :: rest => resolveOp w oc :: resolveAll sh (stepC sh w oc) rest
 
 /-! ### what is observable of a built metamodel (everything, with the pointers followed) -/
 
